@@ -122,8 +122,8 @@ def c11_class(op, impl):
     consumed = inp[:n] if n is not None else b""
     if k == "pi" and f["suffix"]:
         return "int-base-suffix-partial"
-    if k == "pi" and f["prefix"] and consumed[sign_len:sign_len + 1] == b"0" and len(consumed) == sign_len + 2 \
-            and consumed[-1:].lower() == bytes([f["prefix"]]).lower():
+    core = bytes(c for c in consumed[sign_len:] if not (sep and c == sep))     # separators stepped over on the way
+    if k == "pi" and f["prefix"] and core[:1] == b"0" and len(core) == 2 and core[-1:].lower() == bytes([f["prefix"]]).lower():
         return "int-base-prefix-without-digits"
     if k == "pf" and f["radix"] >= 19 and first is not None and chr(first).lower() in "ni":
         return "special-letters-are-digits"
